@@ -237,7 +237,7 @@ Section Fanout.
       destruct (collecting s) eqn:C; try discriminate.
       unfold collecting in C. apply andb_true_iff in C as [C C3]. apply andb_true_iff in C as [C1 C2].
       apply Nat.ltb_lt in C2.
-      inversion H; subst; simpl. repeat split; auto; try lia. intros; discriminate.
+      inversion H; subst; simpl. repeat split; auto; try lia.
     - destruct (cancelled s); try discriminate. inversion H; subst; simpl. repeat split; auto.
     - destruct (negb (fin s) && ((iters s =? length (ws s)) || can_finish (got s))); try discriminate.
       inversion H; subst; simpl. repeat split; auto.
@@ -360,17 +360,17 @@ Section Fanout.
   Proof.
     intros Hf Hc H. destruct l as [i m|i|i|c| | |]; simpl in H.
     - destruct (nth_error (ws s) i) as [[| |]|] eqn:E; try discriminate.
-      inversion H; subst; simpl. pose proof (remaining_upd _ _ (Ret m) _ E). simpl in *. lia.
+      inversion H; subst; simpl. pose proof (remaining_upd _ _ (Ret m) _ E). simpl in *. repeat split; auto; lia.
     - destruct (nth_error (ws s) i) as [[|m|]|] eqn:E; try discriminate.
       destruct (route m).
       + destruct (length (qp s) <? cap); try discriminate. inversion H; subst; simpl.
-        pose proof (remaining_upd _ _ (Sent m m) _ E). simpl in *. lia.
+        pose proof (remaining_upd _ _ (Sent m m) _ E). simpl in *. repeat split; auto; lia.
       + destruct (length (qf s) <? cap); try discriminate. inversion H; subst; simpl.
-        pose proof (remaining_upd _ _ (Sent m m) _ E). simpl in *. lia.
+        pose proof (remaining_upd _ _ (Sent m m) _ E). simpl in *. repeat split; auto; lia.
     - destruct (nth_error (ws s) i) as [[|m|]|] eqn:E; try discriminate.
       destruct (route m); try discriminate.
       destruct (cancelled s && (length (qf s) <? cap)); try discriminate. inversion H; subst; simpl.
-      pose proof (remaining_upd _ _ (Sent m cancel_msg) _ E). simpl in *. lia.
+      pose proof (remaining_upd _ _ (Sent m cancel_msg) _ E). simpl in *. repeat split; auto; lia.
     - unfold collecting in H. rewrite Hf in H. simpl in H. discriminate.
     - unfold collecting in H. rewrite Hf in H. simpl in H. rewrite andb_false_r in H. discriminate.
     - rewrite Hc in H. discriminate.
